@@ -142,6 +142,8 @@ pub mod context {
         #[verifier::external_body] pub fn standard_library_gates<T: AstNode>(&mut self, node: &T)
             requires old(self).wf(),
             ensures crate::scoped(*old(self), *final(self)), final(self).rest == old(self).rest,
+                // every name of the library is bound afterwards (by this call, or before it: then it is reported as a redeclaration)
+                forall|n: Seq<char>| #[trigger] crate::std_gate(n) ==> final(self).resolve(n) is Some,
         { unimplemented!() }
         #[verifier::external_body] pub fn symbol_table(&self) -> (r: &SymbolTable)
             ensures *r == self.symbol_table
